@@ -3,6 +3,7 @@
 package worlds
 
 import (
+	"example.com/scion-time/net/scion"
 	"context"
 	"crypto/tls"
 	"encoding/binary"
@@ -155,7 +156,13 @@ func newNTSSCIONWorld(r *simcore.Run, nlisten int) *ntsSCIONWorld {
 	w.net.Names = map[string]netip.Addr{keHost: netip.MustParseAddr(scSrvIP)}
 	cert, pool := mkCert([]string{keHost}, []string{scSrvIP})
 	w.prov = ntske.NewProvider()
-	w.startServers(nlisten, false, 0, w.prov, false)
+	// packet authentication (DRKey) underneath NTS in a share of the runs: two optional
+	// features that are on together
+	spao := tp.Bool(1, 4, "spao-under-nts")
+	if spao {
+		r.Probe("nts-over-packet-authentication")
+	}
+	w.startServers(nlisten, spao, 0, w.prov, false)
 	kecfg := &tls.Config{Certificates: []tls.Certificate{cert}, MinVersion: tls.VersionTLS13, NextProtos: []string{keALPN}}
 	lst, err := w.net.ListenStream(hp(scSrvIP, kePort), kecfg)
 	if err != nil {
@@ -167,6 +174,10 @@ func newNTSSCIONWorld(r *simcore.Run, nlisten int) *ntsSCIONWorld {
 	w.filter = &recFilter{}
 	w.cl = &client.SCIONClient{Log: quietLog(), Filter: w.filter}
 	w.cl.Auth.NTSEnabled = true
+	if spao {
+		w.cl.Auth.Enabled = true
+		w.cl.Auth.DRKeyFetcher = scion.NewFetcher(w.dc)
+	}
 	w.cl.Auth.NTSKEFetcher.TLSConfig = tls.Config{NextProtos: []string{keALPN}, ServerName: keHost, MinVersion: tls.VersionTLS13, RootCAs: pool}
 	w.cl.Auth.NTSKEFetcher.Port = fmt.Sprint(kePort)
 	w.cl.Auth.NTSKEFetcher.Log = quietLog()
